@@ -5,7 +5,7 @@ import json, os, re, sys
 res = {}
 for f in sys.argv[1:]:
     for l in open(f):
-        m = re.match(r"[FG]?_?(C\d\d)_(\d)\w* (C\d\d) exit=(\d+) violations=(\d+)(.*)", l)
+        m = re.match(r"[A-Z]?_?(C\d\d)_(\d)\w* (C\d\d) exit=(\d+) violations=(\d+)(.*)", l)
         if not m:
             continue
         pid, n, chk, rc, v, rest = m.groups()
